@@ -1425,7 +1425,13 @@ struct TemplateCore {
                 } else if (evaluate(right, next_expr, expr->Operation) &&
                            evaluateExpression(left, right, expr->Operation)) {
                     expr = next_expr;
-                    continue;
+
+                    // The operator that follows belongs to the caller unless it binds tighter than the caller's.
+                    if (previous_oper < expr->Operation) {
+                        continue;
+                    }
+
+                    return true;
                 }
 
                 return false;
